@@ -172,6 +172,15 @@ def part_sbs(ck, tier):
     res = vlib.run_harness("fv-read", ["c14", "sbs-replay", "--cases", r.out])
     ck.add_harness("replay:sparse-bit-set-deep", res)
     os.remove(r.out)
+    # the tallest supported trees (and one level beyond) at the top of the u32 domain: the case's maximum is the headroom
+    # below u32::MAX (bias = MAX - k), so every filled node reaches past the end of the domain
+    r = vlib.run_tlc(wd, "SparseBitSetMC", cfg="SparseBitSetMC_top.cfg", workers=4, timeout=3000, out_name="top.out")
+    ck.add_tlc("tlc:sparse-bit-set-top", r)
+    if not r.ok:
+        ck.spec_error("SparseBitSetMC/top", r)
+    res = vlib.run_harness("fv-read", ["c14", "sbs-replay", "--cases", r.out, "--top"])
+    ck.add_harness("replay:sparse-bit-set-top", res)
+    os.remove(r.out)
     # V: encoder output and decoder results recorded from the real codec, judged by the TLA+ decoder
     for i in range(1 if tier == "quick" else 6):
         trace = os.path.join(wd, "sbs_trace_%d.ndjson" % i)
